@@ -55,8 +55,14 @@ def main():
       name = os.path.basename(mdir)
       # demos written by sub-agents may assert their own worktree path: neutralise that line
       src_demo = open(demo).read()
-      clean = '\n'.join(('pass  # ' + l.strip()) if ("startswith('/tmp/wt" in l or 'startswith("/tmp/wt' in l)
-                        and l.lstrip() == l else l for l in src_demo.split('\n'))
+      def neutral(l):
+        st = l.lstrip()
+        if st.startswith('assert') and '/tmp/wt' in l:
+          return l[:len(l) - len(st)] + 'pass  # ' + st
+        if ("startswith('/tmp/wt" in l or 'startswith("/tmp/wt' in l) and st == l:
+          return 'pass  # ' + l.strip()
+        return l
+      clean = '\n'.join(neutral(l) for l in src_demo.split('\n'))
       demo = os.path.join(tempfile.gettempdir(), f'demo_{prop}_{name}.py')
       open(demo, 'w').write(clean)
       meta = {}
